@@ -32,8 +32,8 @@ shutil.copy(os.path.join(root, "bin", "raftlint"), BIN); os.chmod(BIN, 0o755)
 os.environ["VERIF_DIR"] = root
 def one(m):
     ok = True
-    lines = []
-    def out(x): lines.append(x)
+    olines = []
+    def out(x): olines.append(x)
     d = tempfile.mkdtemp(prefix="raftmut-")
     try:
         dst = os.path.join(d, "repo")
@@ -41,7 +41,7 @@ def one(m):
         path = os.path.join(dst, m["file"])
         src = open(path).read()
         if src.count(m["find"]) != 1:
-            out(f"SKIP   {m['name']}: pattern occurs {src.count(m['find'])} times"); return False, lines
+            out(f"SKIP   {m['name']}: pattern occurs {src.count(m['find'])} times"); return False, olines
         new = src.replace(m["find"], m["replace"])
         new = apply_pre(m, new)
         open(path, "w").write(new)
@@ -60,7 +60,7 @@ def one(m):
         if m.get("silent"):
             out(("NOISY  " if noisy else "QUIET  ") + m["name"] + ": " + " ;; ".join(outs))
             if noisy: ok = False
-            if not props: return ok, lines
+            if not props: return ok, olines
         for p in props:
             env = dict(os.environ, VERIF_OUT=d)
             os.makedirs(os.path.join(d, "checker"), exist_ok=True)
@@ -81,7 +81,7 @@ def one(m):
         out(f"{status} {m['name']}: " + " ;; ".join(outs))
     finally:
         shutil.rmtree(d, ignore_errors=True)
-    return ok, lines
+    return ok, olines
 sel = [m for m in muts if not want or m["name"] in want]
 allok = True
 with cf.ThreadPoolExecutor(J) as ex:
